@@ -294,10 +294,25 @@ handlers, `ProcessMixedContentClass`; model `Gen/DtdElem`). A mixed class has on
 `content` (`0..unbounded`, `mixed=True`, namespace `##any`): no occurrence constraint is left that
 a valid document could violate. -/
 
-/-- **`ANY` is mixed content** (after the repair `fix: DtdMapper maps an element declared ANY to a
-mixed content class`; before: a single optional wildcard, and `<b>tx<z/>ty</b>` lost `ty`). -/
-theorem dtd_any_is_mixed (c : Option DtdContent) : dtdClassFields .any c = .mixedWildcard [] := by
+/-- `ANY` gives the extension of `xs:anyType`, i.e. one optional wildcard field -/
+theorem dtd_any_single_wildcard (c : Option DtdContent) :
+    dtdClassFields .any c = .anyTypeWildcard := by
   cases c <;> rfl
+
+/-- "an element declaration whose content admits character data interleaved with child elements gets
+fields that can keep it" -/
+def DtdMixedKept : Prop :=
+  ∀ (t : DtdElemType) (c : Option DtdContent), t = .any ∨ t = .mixed →
+    (match c with | some (.pcdata _) => False | _ => True) →
+    (dtdClassFields t c).keepsMixedContent = true
+
+/-- **Defect (finding `C16-any-drops-text`)**: the class of `<!ELEMENT b ANY>` has a single wildcard
+field that is neither a list nor mixed: of the DTD-valid content `<b>tx<z>q</z>ty<d>dd</d></b>` the
+parser keeps `tx`, `z`, `d` in one generic element and drops `ty` ("Unassigned parsed object"). -/
+theorem dtd_any_drops_text : ¬ DtdMixedKept := by
+  intro h
+  have := h .any none (Or.inl rfl) trivial
+  exact absurd this (by decide)
 
 /-- **Mixed content `(#PCDATA | a | …)*` gives the wildcard list**, whatever the listed elements. -/
 theorem dtd_mixed_is_wildcard (o o' : Occur) (r : Option DtdContent) :
